@@ -64,6 +64,7 @@ var zzErrABI = errors.New("zz: abi failure")
 type zzFakeABI struct {
 	t   *zzT
 	op  int
+	two bool    // verdicts restricted to {invalid, ok}
 	bad [4]bool // most recent verdict of tx i was invalid / error
 }
 
@@ -71,6 +72,9 @@ func (a *zzFakeABI) VerifyTransaction(req *labi.VerifyTransactionRequest) (*labi
 	i := int(req.Transaction.ID[0])
 	v := a.t.I32(a.t.Name(a.t.Name("verdict", i), a.op))
 	a.t.Assume(a.t.And(v >= -1, v <= 2))
+	if a.two {
+		a.t.Assume(a.t.Or(v == -1, v == 1))
+	}
 	if v == 2 {
 		a.bad[i] = true
 		return nil, zzErrABI
@@ -105,10 +109,17 @@ var zzSenderKeys = [2][]byte{
 	{0xb2, 1, 2, 3, 4, 5, 6, 7, 8, 9, 10, 11, 12, 13, 14, 15, 16, 17, 18, 19, 20, 21, 22, 23, 24, 25, 26, 27, 28, 29, 30, 31},
 }
 
-func zzNewPool(t *zzT) (*TransactionPool, *zzFakeABI) {
+// zzNewPool builds an empty pool; maxAll / maxAcct = 0 means "ranges over {1,2}".
+func zzNewPool(t *zzT, maxAll, maxAcct int) (*TransactionPool, *zzFakeABI) {
+	if maxAll == 0 {
+		maxAll = t.Range("MaxTransactions", 1, 2)
+	}
+	if maxAcct == 0 {
+		maxAcct = t.Range("MaxTransactionsPerAccount", 1, 2)
+	}
 	cfg := &TransactionPoolConfig{
-		MaxTransactions:             t.Range("MaxTransactions", 1, 2),
-		MaxTransactionsPerAccount:   t.Range("MaxTransactionsPerAccount", 1, 2),
+		MaxTransactions:             maxAll,
+		MaxTransactionsPerAccount:   maxAcct,
 		MinEntranceFeePriority:      t.U64("MinEntranceFeePriority"),
 		MinReplacementFeeDifference: t.U64("MinReplacementFeeDifference"),
 	}
@@ -476,7 +487,7 @@ func zzRunOps(t *zzT, check bool) {
 	n, K := t.Param("n", 3), t.Param("K", 3)
 	prune := t.Param("prune", 0) == 1
 	zzCov = nil
-	p, abi := zzNewPool(t)
+	p, abi := zzNewPool(t, 0, 0)
 	txs := zzNewTxs(t, n, t.Param("senders", 0), t.Param("symsize", 0))
 	seen := make([]bool, n)
 	for k := 0; k < K; k++ {
@@ -519,4 +530,56 @@ func zzH_C14_pool_invariants(t *zzT) {
 //zz:thorough n=3 K=4 senders=1 symsize=1 budget=1800s
 func zzH_C14_no_operation_blocks(t *zzT) {
 	zzRunOps(t, false)
+}
+
+// zzH_C14_concurrent_reorg: C14.a/b in concurrency mode — the promotion step (which starts one
+// goroutine per sender list, each of which may call remove) runs concurrently with a second pool
+// operation; every goroutine must finish (no deadlock) and the indexes must agree afterwards. The
+// configuration (MaxTransactions 3, tx1 above tx0's nonce) stays outside the defects reported by the
+// sequential harnesses so that only interleaving-specific failures show up here.
+//
+//zz:opt loop=256 join=1
+//zz:quick sched=1 small=1 budget=200s
+//zz:thorough sched=3 budget=3600s paths=2000000
+//zz:stub (*~/pkg/blockchain.Transaction).Size zzStubTxSize
+//zz:stub (*~/pkg/blockchain.Transaction).Encode zzStubTxEncode
+func zzH_C14_concurrent_reorg(t *zzT) {
+	zzCov = nil
+	p, abi := zzNewPool(t, 3, 2)
+	p.config.MinEntranceFeePriority = 0
+	p.config.MinReplacementFeeDifference = 1
+	txs := zzNewTxs(t, 3, 0, 0)
+	t.Assume(txs[1].Nonce > txs[0].Nonce)
+	if t.Param("small", 0) == 1 {
+		// quick tier: concrete fees (they only order the fee queue) and two-valued verdicts
+		for i, tx := range txs {
+			tx.Fee = uint64(100 * (i + 1))
+		}
+		abi.two = true
+	}
+	abi.op = 0
+	t.Assume(t.And(abi.t.I32("verdict[0][0]") == 1, abi.t.I32("verdict[2][0]") == 1))
+	a0 := p.Add(txs[0])
+	a2 := p.Add(txs[2])
+	t.Assert(a0 && a2, "two valid transactions of different senders enter an empty pool of capacity 3")
+	abi.op = 1
+	var wg sync.WaitGroup
+	wg.Add(1)
+	go func() {
+		defer wg.Done()
+		p.reorg()
+	}()
+	switch t.Choice("main.op", 4) {
+	case 0:
+		p.Add(txs[1])
+	case 1:
+		p.Remove(txs[0].ID)
+	case 2:
+		p.Remove(txs[2].ID)
+	default:
+		p.reorg()
+	}
+	wg.Wait()
+	zzCheckPool(t, p, txs, zzLblAgree)
+	t.Reach("end")
 }
